@@ -9,6 +9,7 @@ git -C $L/repo apply /verif/seeded/$id/patch.diff || git -C $L/repo apply --3way
 git -C $L/repo reset -q
 for p in "$@"; do
   out=$(cd $L/verif && ./check $p --tier quick --seed ${SEED:-1} 2>&1); rc=$?
+  echo "$out" > /tmp/seedtest.$id.$p.log
   echo "labtest $id $p rc=$rc $(echo "$out" | grep -c '^VIOLATION') violation lines; $(echo "$out" | grep '^VIOLATION' | head -3 | sed 's/.*# //' | cut -c1-150 | tr '\n' ';')"
   [ $rc -ge 2 ] && echo "$out" | grep -E "TOOL-ERROR" -A8 | head -12
 done
